@@ -342,8 +342,10 @@ theorem ofBits_aux (p : Nat → Bool) (n : Nat) (j : Nat) :
         simp [h2]
 
 theorem ofBits_bit (p : Nat → Bool) (j : Nat) (hj : j < w) : (ofBits w p).getLsbD j = p j := by
+  have := ofBits_aux (w := w) p w j
   unfold ofBits
-  rw [ofBits_aux]; simp [hj]
+  simp only [BitVec.ofNat_eq_ofNat] at this ⊢
+  rw [this]; simp [hj]
 
 theorem specAdd_eq (x f : BitVec w) : specAdd x f = add x f := by
   apply BitVec.eq_of_getLsbD_eq
